@@ -110,7 +110,38 @@ func c01Command(rc *RunCtx, t *simrt.Tape) {
 				_ = sh
 			}
 			transport = fmt.Sprintf("%d-files", 1+nx)
-			if t.Choose(2) == 1 {
+			if codec <= 1 && t.Choose(3) == 2 {
+				// the files are given as a directory (relative to the working directory of the
+				// command) holding a sub-directory: every file in it is read once, whatever
+				// the order the directory is listed in
+				os.MkdirAll(filepath.Join(dir, "data", "sub"), 0755)
+				moved := []string{}
+				for i, a := range args {
+					if strings.HasPrefix(a, dir+string(filepath.Separator)) && (a == in || strings.Contains(filepath.Base(a), "more")) {
+						dst := filepath.Join(dir, "data", filepath.Base(a))
+						if i%2 == 1 {
+							dst = filepath.Join(dir, "data", "sub", filepath.Base(a))
+						}
+						os.Rename(a, dst)
+						moved = append(moved, a)
+					}
+				}
+				kept := args[:0:0]
+				for _, a := range args {
+					isMoved := false
+					for _, m := range moved {
+						if a == m {
+							isMoved = true
+						}
+					}
+					if !isMoved {
+						kept = append(kept, a)
+					}
+				}
+				args = append(kept, "data")
+				noOrder = true
+				transport += "-as-directory"
+			} else if t.Choose(2) == 1 {
 				args = append(args, "--no-order")
 				noOrder = true
 				transport += "-no-order"
